@@ -44,6 +44,24 @@ class Obj:
         return f"<{self.cls.name} obj {sorted(self.attrs)}>"
 
 
+class STObj(STensor):
+    """Instance of a repo class deriving from torch.Tensor (DataTensor family): a symbolic tensor plus attributes."""
+
+    __slots__ = ("cls", "attrs")
+
+    def __init__(self, cls: ClassInfo, base: STensor):
+        STensor.__init__(self, base.store, list(base.idx), base.shape, base.dtype)
+        self.requires_grad = base.requires_grad
+        self.cls = cls
+        self.attrs: Dict[str, Any] = {}
+
+    def plain(self) -> STensor:
+        return STensor(self.store, list(self.idx), self.shape, self.dtype)
+
+    def __repr__(self):
+        return f"<{self.cls.name} tensor {tuple(self.shape)} {sorted(self.attrs)}>"
+
+
 class EnumVal:
     def __init__(self, cls: ClassInfo, name: str, value: Any):
         self.cls = cls
@@ -230,11 +248,18 @@ class Interp:
                 frame.self_obj = args[0]
             if isinstance(node, ast.Lambda):
                 return self.eval(node.body, frame)
-            decos = [dotted(d.func) if isinstance(d, ast.Call) else dotted(d) for d in node.decorator_list]
+            is_gen = any(isinstance(n, (ast.Yield, ast.YieldFrom)) for n in ast.walk(node)
+                         if not isinstance(n, (ast.Lambda,)))
+            if is_gen:
+                frame.vars["__yields__"] = []
             try:
                 self.exec_block(node.body, frame)
             except _Return as r:
+                if is_gen:
+                    return iter(frame.vars["__yields__"])
                 return r.value
+            if is_gen:
+                return iter(frame.vars["__yields__"])
             return None
         finally:
             self.call_depth -= 1
@@ -285,6 +310,17 @@ class Interp:
                 if m.value == v:
                     return m
             raise InterpError("ValueError", f"{v!r} is not a valid {ci.name}")
+        if self._is_tensor_class(ci):
+            new = prog.find_method(ci, "__new__")
+            if new is None:
+                raise Unsupported(f"tensor subclass {ci.name} without repo-defined __new__")
+            obj = self._call_func(FuncVal(new, new.node, new.module, None, new.cls), [ClassVal(ci)] + list(args), dict(kwargs))
+            if not isinstance(obj, STObj):
+                raise Unsupported(f"{ci.name}.__new__ did not produce a tensor subclass instance")
+            init = prog.find_method(ci, "__init__")
+            if init is not None:
+                self._call_func(FuncVal(init, init.node, init.module, None, init.cls), [obj] + list(args), kwargs)
+            return obj
         obj = Obj(ci)
         init = prog.find_method(ci, "__init__")
         if init is not None:
@@ -297,6 +333,9 @@ class Interp:
     # ------------------------------------------------------------------ enums / module constants
     def _is_enum(self, ci: ClassInfo) -> bool:
         return any(x.split(".")[-1] in ("Enum", "IntEnum", "Flag") for x in self.prog.all_external_bases(ci))
+
+    def _is_tensor_class(self, ci: ClassInfo) -> bool:
+        return any(x in ("Tensor", "torch.Tensor") for x in self.prog.all_external_bases(ci))
 
     def _enum_names(self, ci: ClassInfo) -> List[str]:
         out = []
@@ -386,6 +425,8 @@ class Interp:
             if m is None:
                 if attr == "__init__":
                     return lambda *a, **k: None
+                if isinstance(v.obj, STObj) and hasattr(STensor, attr):
+                    return getattr(v.obj.plain(), attr)
                 raise Unsupported(f"super().{attr} resolves outside the repo")
             fv = FuncVal(m, m.node, m.module, None, m.cls)
             if m.is_property:
@@ -420,6 +461,8 @@ class Interp:
                 if m.is_classmethod:
                     return BoundMethod(ClassVal(v.cls), fv)
                 return BoundMethod(v, fv)
+            if attr in self._enum_names(v.cls):
+                return self._enum_member(v.cls, attr)
             raise InterpError("AttributeError", f"{v!r}.{attr}")
         if isinstance(v, ModuleVal):
             ok, val = self.module_global(v.mi, attr)
@@ -431,7 +474,31 @@ class Interp:
             raise InterpError("AttributeError", f"module {v.mi.name} has no attribute {attr}")
         if isinstance(v, External):
             return self._external(v.name + "." + attr)
+        if isinstance(v, STObj):
+            if attr in v.attrs:
+                return v.attrs[attr]
+            m = prog.find_method(v.cls, attr)
+            if m is not None:
+                fv = FuncVal(m, m.node, m.module, None, m.cls)
+                if m.is_property:
+                    return self._call_func(fv, [v], {})
+                if m.is_static:
+                    return fv
+                if m.is_classmethod:
+                    return BoundMethod(ClassVal(v.cls), fv)
+                return BoundMethod(v, fv)
+            for c in prog.mro(v.cls):
+                if attr in c.class_attrs:
+                    return self.eval(c.class_attrs[attr], Frame(c.module, c))
+            if attr == "as_subclass":
+                return lambda t: self._as_subclass(v, t)
+            if attr == "__dict__":
+                return v.attrs
+            if attr == "is_pinned":
+                return lambda: False
         if isinstance(v, STensor):
+            if attr == "as_subclass":
+                return lambda t: self._as_subclass(v, t)
             if attr in ("shape", "ndim", "dtype", "device", "T", "mT", "requires_grad"):
                 return getattr(v, attr)
             if attr == "data":
@@ -464,7 +531,17 @@ class Interp:
                 return getattr((v.func if isinstance(v, BoundMethod) else v).node, "name", "lambda")
         raise Unsupported(f"attribute '{attr}' of {type(v).__name__}")
 
+    def _as_subclass(self, v: STensor, t):
+        if isinstance(t, ClassVal):
+            return STObj(t.cls, v)
+        if isinstance(t, External) and t.name.split(".")[-1] == "Tensor":
+            return v.plain() if isinstance(v, STObj) else v
+        raise Unsupported(f"as_subclass({t!r})")
+
     def setattr(self, v, attr: str, value):
+        if isinstance(v, STObj):
+            v.attrs[attr] = value
+            return
         if isinstance(v, Obj):
             v.attrs[attr] = value
             return
@@ -703,19 +780,22 @@ class Interp:
                 if ln is not None:
                     return self.truth(self.method(v, "__len__"))
             return True
+        import re as _re
+        if isinstance(v, _re.Match):
+            return True
         self.unsupported(node, f"truth value of {type(v).__name__}")
 
     def iterate(self, v, node=None):
         if isinstance(v, (list, tuple, range, dict, set, str, frozenset)) or hasattr(v, "__next__"):
             return v
-        if isinstance(v, STensor):
+        if isinstance(v, STensor) and not isinstance(v, STObj):
             return list(v)
         if isinstance(v, type({}.items())) or isinstance(v, (type({}.keys()), type({}.values()), zip, enumerate, map, reversed)):
             return v
-        if isinstance(v, Obj):
+        if isinstance(v, (Obj, STObj)):
             it = self.prog.find_method(v.cls, "__iter__")
             if it is not None:
-                self.unsupported(node, "iteration over repo object with __iter__ (generator)")
+                return list(self.method(v, "__iter__"))
         if isinstance(v, ClassVal) and self._is_enum(v.cls):
             seen = []
             for n in self._enum_names(v.cls):
@@ -844,6 +924,10 @@ class Interp:
         if isinstance(a, STensor) or isinstance(b, STensor):
             if t is ast.MatMult:
                 return symt.matmul(a, b)
+            if t is ast.BitAnd and isinstance(a, STensor):
+                return a.logical_and(b)
+            if t is ast.BitOr and isinstance(a, STensor):
+                return a.logical_or(b)
             if isinstance(a, STensor):
                 f = {ast.Add: a.add, ast.Sub: a.sub, ast.Mult: a.mul, ast.Div: a.div, ast.Pow: a.pow}.get(t)
                 if t is ast.FloorDiv:
@@ -982,6 +1066,8 @@ class Interp:
             return a == b
         if isinstance(a, STensor) and isinstance(b, STensor):
             return a is b
+        if isinstance(a, External) and isinstance(b, External):
+            return a.name.split(".")[-1] == b.name.split(".")[-1]
         return a is b
 
     def _contains(self, container, item, node):
@@ -1014,6 +1100,8 @@ class Interp:
         return self._getitem(c, k, e)
 
     def _getitem(self, c, k, node):
+        if isinstance(c, STObj) and self.prog.find_method(c.cls, "__getitem__") is not None:
+            return self.method(c, "__getitem__", k)
         if isinstance(c, STensor):
             return c[k]
         if isinstance(c, External):
@@ -1060,6 +1148,13 @@ class Interp:
             v = self.eval(x, frame)
             return self._index_value(v)
         return slice(ev(e.lower), ev(e.upper), ev(e.step))
+
+    def _e_Yield(self, e, frame):
+        ok, ys = frame.lookup("__yields__")
+        if not ok:
+            self.unsupported(e, "yield outside generator")
+        ys.append(self.eval(e.value, frame) if e.value is not None else None)
+        return None
 
     def _e_Starred(self, e, frame):
         self.unsupported(e, "starred expression outside call/display")
@@ -1154,7 +1249,7 @@ class Interp:
             return isinstance(args[0], (FuncVal, BoundMethod, ClassVal, External)) or callable(args[0])
         if fn is _type:
             v = args[0]
-            if isinstance(v, Obj):
+            if isinstance(v, (Obj, STObj)):
                 return ClassVal(v.cls)
             if isinstance(v, EnumVal):
                 return ClassVal(v.cls)
@@ -1163,7 +1258,7 @@ class Interp:
             return type(v)
         if fn is _len:
             v = args[0]
-            if isinstance(v, Obj):
+            if isinstance(v, Obj) or (isinstance(v, STObj) and self.prog.find_method(v.cls, "__len__") is not None):
                 return self.method(v, "__len__")
             try:
                 return len(v)
@@ -1250,7 +1345,7 @@ class Interp:
             return any(self._isinstance(v, c, node) for c in cls)
         cls = _TYPE_ALIASES.get(cls, cls) if callable(cls) and not isinstance(cls, (ClassVal, External)) else cls
         if isinstance(cls, ClassVal):
-            if isinstance(v, Obj):
+            if isinstance(v, (Obj, STObj)):
                 return cls.cls in self.prog.mro(v.cls)
             if isinstance(v, EnumVal):
                 return cls.cls in self.prog.mro(v.cls)
@@ -1301,6 +1396,14 @@ class Interp:
         short = name.split(".")
         base = short[0]
         last = short[-1]
+        if last == "_make_subclass":
+            cls_, data = args[0], args[1]
+            if not isinstance(cls_, ClassVal) or not isinstance(data, STensor):
+                raise Unsupported("Tensor._make_subclass arguments")
+            o = STObj(cls_.cls, data)
+            if len(args) > 2:
+                o.requires_grad = bool(args[2])
+            return o
         if name in _EXTERNAL_FUNCS:
             try:
                 return _EXTERNAL_FUNCS[name](*args, **kwargs)
@@ -1470,7 +1573,7 @@ def _next(it, *d):
 
 
 def _slice(*a):
-    return slice(*a)
+    return slice(*[symt._as_index(x) for x in a])
 
 
 _BUILTINS: Dict[str, Any] = {
@@ -1483,7 +1586,8 @@ _BUILTINS: Dict[str, Any] = {
     "object": object, "frozenset": frozenset, "bytes": bytes,
 }
 # isinstance(x, int) etc. need the type objects: handled via identity on the wrapper functions
-_TYPE_ALIASES = {_int: int, _float: float, _bool: bool, _str: str, _tuple: tuple, _list: list, _dict: dict, _set: set}
+_TYPE_ALIASES = {_int: int, _float: float, _bool: bool, _str: str, _tuple: tuple, _list: list, _dict: dict, _set: set,
+                 _slice: slice, _range: range}
 
 PI = Rat.atom("pi")
 
@@ -1542,6 +1646,7 @@ _EXTERNAL_FUNCS: Dict[str, Callable] = {
     "itertools.product": lambda *a, **k: list(__import__("itertools").product(*a, **k)),
     "itertools.permutations": lambda *a: list(__import__("itertools").permutations(*a)),
     "itertools.combinations": lambda *a: list(__import__("itertools").combinations(*a)),
+    "itertools.repeat": lambda *a: __import__("itertools").repeat(*a),
     "functools.reduce": None,
 }
 
@@ -1594,6 +1699,14 @@ _EXTERNAL_FUNCS["copy.copy"] = _shallow_copy
 _EXTERNAL_FUNCS["copy.deepcopy"] = _deep_copy
 
 
+class _FInfo(HostObject):
+    """torch.finfo in exact arithmetic: machine epsilons are 0 (stated assumption)."""
+    tiny = 0
+    eps = 0
+    min = Fraction(-10**30)
+    max = Fraction(10**30)
+
+
 class _NoGrad:
     def __call__(self, *a, **k):
         if len(a) == 1 and isinstance(a[0], FuncVal):
@@ -1625,7 +1738,9 @@ _TORCH: Dict[str, Callable] = {
     "tensor": symt.tensor, "as_tensor": symt.as_tensor, "zeros": symt.zeros, "ones": symt.ones, "empty": symt.empty,
     "full": symt.full, "eye": symt.eye, "diag": symt.diag, "arange": symt.arange, "linspace": symt.linspace,
     "cat": symt.cat, "stack": symt.stack, "matmul": symt.matmul, "mm": symt.mm, "bmm": symt.bmm, "inverse": symt.inverse,
-    "where": symt.where, "allclose": symt.allclose, "linear": symt.linear, "atan2": symt.atan2, "meshgrid": symt.meshgrid,
+    "where": symt.where, "allclose": symt.allclose, "linear": symt.linear, "atan2": symt.atan2, "meshgrid": symt.meshgrid, "grid_sample": symt.grid_sample, "pad": symt.fpad, "interpolate": symt.interpolate,
+    "avg_pool1d": symt.avg_pool, "avg_pool2d": symt.avg_pool, "avg_pool3d": symt.avg_pool,
+    "atleast_1d": lambda t: (t if isinstance(t, STensor) else symt.tensor(t)) if (isinstance(t, STensor) and t.ndim > 0) else (t if isinstance(t, STensor) else symt.tensor(t)).reshape(1) if (not isinstance(t, STensor) or t.ndim == 0) and not isinstance(t, (list, tuple)) else symt.tensor(t), "triu_indices": symt.triu_indices,
     "is_tensor": _t_is_tensor, "is_floating_point": _t_is_floating_point, "no_grad": _NoGrad(),
     "zeros_like": lambda t, **k: symt.zeros(t.shape, dtype=k.get("dtype", t.dtype)),
     "ones_like": lambda t, **k: symt.ones(t.shape, dtype=k.get("dtype", t.dtype)),
@@ -1636,6 +1751,8 @@ _TORCH: Dict[str, Callable] = {
     "isclose": lambda a, b, **k: a.eq(b), "equal": lambda a, b: tuple(a.shape) == tuple(b.shape) and bool(a.eq(b).all()),
     "clone": lambda t, **k: t.clone(), "round": _t_round,
     "normalize": lambda t, p=2, dim=-1, **k: t.div(t.norm(p, dim, True)),
+    "finfo": lambda dt=None: _FInfo(), "iinfo": lambda dt=None: _FInfo(),
+    "log1p": lambda t: symt.STensor.from_flat([symt.sfunc("log", to_rat(x) + 1) for x in t.flat()], t.shape, FLOAT),
 }
 for _n in ("cos", "sin", "tan", "tanh", "atanh", "exp", "log", "acos", "asin", "atan", "sqrt", "abs", "neg", "square",
            "sum", "prod", "mean", "flip", "transpose", "reshape", "flatten", "squeeze", "unsqueeze", "clamp", "clip",
